@@ -24,6 +24,6 @@ For each variant X in {{a, b}} deliver a directory /tmp/seeded/{pid}X/ containin
   - demo_test.go (or a small main program) : a demonstration that FAILS with the change applied and PASSES on the unmodified tree; say in meta.json in which directory of the repo it has to be placed and the exact command to run it
   - meta.json : {{"property": "{pid}", "variant": "X", "summary": "...what was changed and why it breaks the property...", "needs_to_manifest": "...the specific input / sequence / interleaving / fault needed...", "demo_location": "...", "demo_cmd": "...", "suite_result": "...what you ran and observed..."}}
 
-Procedure you must follow and confirm for each variant: apply the change in the worktree; `go build ./...`; run the full existing suite and confirm it passes (if a test fails, your change is not acceptable -- choose another); run your demonstration and confirm it fails; `git stash` / `git checkout -- .` to revert the source change, run the demonstration again and confirm it passes; save the artifacts; make sure the worktree is clean (git status shows nothing except possibly your untracked demo file, which you should also remove) before starting the next variant. Do not commit anything. Do not modify existing test files.
+Procedure you must follow and confirm for each variant: apply the change in the worktree; `go build ./...`; run the full existing suite and confirm it passes (a test that already fails on the unmodified tree in this sandbox -- e.g. internal/mtail example-program tests for examples/dhcpd.mtail -- does not count; judge relative to that baseline; if any other test fails, your change is not acceptable -- choose another); run your demonstration and confirm it fails; save your diff with `git diff > patch.diff` first, then `git checkout -- .` to revert the source change (NEVER use `git stash`: the stash is shared between all worktrees of this repository and other agents work in sibling worktrees), run the demonstration again and confirm it passes; save the artifacts; make sure the worktree is clean (git status shows nothing except possibly your untracked demo file, which you should also remove) before starting the next variant. Do not commit anything. Do not modify existing test files.
 
 When done, reply with a short summary of the two variants (files touched, what is needed to trigger them) and confirm the artifacts exist.""")
